@@ -50,7 +50,7 @@ LAYERS = {
     'C11': ({'outcome', 'views.has', 'views.get', 'views.list', 'state.packs', 'state.rows'}, {'delete', 'repack', 'repackOne'}),
     'C12': ({'views.validate'}, None),
     'C13': ({'state.packs', 'state.stray'}, {'addLoose', 'addPacked', 'packAll', 'clean', 'import', 'reopen', 'loosen'}),
-    'C14': ({'outcome', 'state.rows', 'state.packs', 'state.loose', 'views.get', 'views.has'}, {'import'}),
+    'C14': ({'outcome', 'calls', 'state.rows', 'state.packs', 'state.loose', 'views.get', 'views.has'}, {'import'}),
     'C18': ({'trace'}, None),
     'C16': ({'outcome', 'views.has', 'views.get', 'views.metabasic', 'views.list', 'views.countobj', 'state.loose', 'state.rows'}, None),
 }
